@@ -72,7 +72,7 @@ Qed.
 
 (* ------------------------------------------------------------------ the custom containers *)
 
-Definition fx (go js : bytes) : finfo := mkF go true false (Some js) false false false.
+Definition fx (go js : bytes) : finfo := mkF go true false (Some js) false false false false.
 
 (** queueing.bufferState[T] *)
 Definition buffer_ty (e : ty) : ty :=
@@ -130,9 +130,9 @@ Proof. reflexivity. Qed.
 
 (** the pre-fix shape of rob.transactionState.RspData (omitempty on a byte slice) *)
 Definition t_rsp_old : ty :=
-  TStruct [(mkF (bs "RspData") true false (Some (bs "rsp_data")) false true false, TSlice (TInt U8))].
+  TStruct [(mkF (bs "RspData") true false (Some (bs "rsp_data")) false true false false, TSlice (TInt U8))].
 Definition t_rsp : ty :=
-  TStruct [(mkF (bs "RspData") true false (Some (bs "rsp_data")) false false false, TSlice (TInt U8))].
+  TStruct [(mkF (bs "RspData") true false (Some (bs "rsp_data")) false false false false, TSlice (TInt U8))].
 
 Lemma omitempty_old :
   lossless t_rsp_old = false /\
@@ -171,12 +171,12 @@ Qed.
 
 (** non-vacuity: a message-like value with promoted metadata, a byte slice and a buffer *)
 Definition t_msg : ty :=
-  TStruct [(mkF (bs "MsgMeta") true true None false false false,
-            TStruct [(mkF (bs "ID") true false None false false false, TInt U64);
-                     (mkF (bs "Src") true false None false false false, TString)]);
-           (mkF (bs "Data") true false None false false false, TSlice (TInt U8));
-           (mkF (bs "Info") true false None true false false, TOther KIface);
-           (mkF (bs "Queue") true false (Some (bs "queue")) false false false, buffer_ty (TInt I64))].
+  TStruct [(mkF (bs "MsgMeta") true true None false false false false,
+            TStruct [(mkF (bs "ID") true false None false false false false, TInt U64);
+                     (mkF (bs "Src") true false None false false false false, TString)]);
+           (mkF (bs "Data") true false None false false false false, TSlice (TInt U8));
+           (mkF (bs "Info") true false None true false false false, TOther KIface);
+           (mkF (bs "Queue") true false (Some (bs "queue")) false false false false, buffer_ty (TInt I64))].
 Definition v_msg : value :=
   VStruct [VStruct [VInt 7; VStr (bs "GPU[0].L1.Top")]; VSlice (Some []); VSkip;
            VCustom (VStruct [VStr (bs "Buf"); VInt 4; VSlice (Some [VInt (-1); VInt 2])])].
